@@ -462,6 +462,56 @@ def r11(ctx, rep):
               "(lower_relation does not save it), so a window function lowered afterwards in the enclosing pipeline (a join condition) is given this pipeline's partition and sort columns - ids of "
               "another table", file=f["file"], line=sets[0]["l"], fn=f["path"])
 
+def _leaves(e):
+    """the alternative values of an expression (branches of if / match, tails of blocks)"""
+    k = e.get("k") if isinstance(e, dict) else None
+    if k == "paren":
+        return _leaves(e["e"])
+    if k == "block":
+        t = tail_expr(e)
+        return _leaves(t) if t is not None else [e]
+    if k == "if":
+        return _leaves(e["t"]) + (_leaves(e["e"]) if e.get("e") is not None else [e])
+    if k == "match":
+        return [x for a in e["arms"] for x in _leaves(a["body"])]
+    return [e]
+
+
+def r12(ctx, rep):
+    rep.rule("C16.R12", "the sort in effect is lowered ahead of every transform, whatever its kind: the columns it names are declared in the pipeline that uses them", floor=1)
+    syn = ctx.syn
+    import alpha
+    f = syn.fn("Lowerer::lower_pipeline", crate="prqlc")
+    A = alpha.Inliner(f)
+    lits = [n for n in walk(f["body"]) if n.get("k") == "struct" and last_seg(n["p"]) == "Window" and any(x[0] == "sort" for x in n["f"])]
+    if not lits:
+        raise AnchorMissing("lower_pipeline: the rq::Window built for the transform")
+    for n in lits:
+        v = dict(n["f"])["sort"]
+        init = v
+        if v.get("k") == "path":
+            init = A._init_of(v, v["p"]) or v
+        lv = _leaves(init)
+        bad = [show(x, maxdepth=5)[:40] for x in lv if not any(c.get("k") == "mcall" and c["m"] == "lower_sorts" for c in walk(x))]
+        rep.check(not bad, "window-sort-lowered", f"rq::Window.sort in lower_pipeline must be `self.lower_sorts(transform_call.sort)` on every path; found the alternative(s) {bad}: a sort column that is an "
+                  "expression is then declared inside a later sub-pipeline (a loop body) while the transforms after it still refer to its id", file=f["file"], line=n["l"], fn=f["path"])
+
+
+def r13(ctx, rep):
+    rep.rule("C16.R13", "the input of a group / window pipeline is substituted once: the replacement is moved out of the map, so no two nodes of the result share their ids", floor=1)
+    syn = ctx.syn
+    fe = [f for f in syn.fns if f["crate"] == "prqlc" and f["file"].endswith("resolver/flatten.rs") and f.get("self_short") == "Flattener" and f["name"] == "fold_expr" and "body" in f]
+    if len(fe) != 1:
+        raise AnchorMissing("Flattener::fold_expr")
+    f = fe[0]
+    # every read of replace_map that yields the replacement takes it out
+    reads = [n for n in walk(f["body"]) if n.get("k") == "mcall" and show(n["r"]).endswith("replace_map") and n["m"] in ("get", "get_mut", "remove", "remove_entry", "entry", "contains_key", "values", "iter", "drain")]
+    taking = [n for n in reads if n["m"] in ("remove", "remove_entry")]
+    copying = [n for n in reads if n["m"] in ("get", "get_mut", "values", "iter", "entry")]
+    rep.check(bool(taking) and not copying, "replacement-moved", f"Flattener::fold_expr must take the replacement out of `replace_map` (`remove`), found {[n['m'] for n in reads]}: a pipeline that mentions its "
+              "input twice would otherwise get two copies of it with the same node ids, and the second lowering overwrites the first one's column mapping", file=f["file"], line=(copying or reads or [f])[0]["l"], fn=f["path"])
+
+
 def run(ctx, rep):
-    for r in (r1, r2, r3_r4, r5, r6, r7, r8, r9, r10, r11):
+    for r in (r1, r2, r3_r4, r5, r6, r7, r8, r9, r10, r11, r12, r13):
         rep.guard(r, ctx)
